@@ -261,6 +261,12 @@ class ModRef:
     def __init__(self, dotted):
         self.dotted = dotted
 
+    def __eq__(self, o):
+        return isinstance(o, ModRef) and o.dotted == self.dotted
+
+    def __hash__(self):
+        return hash(self.dotted)
+
     def __repr__(self):
         return f"<module {self.dotted}>"
 
@@ -718,6 +724,10 @@ class Interp:
                     if _is_property(m.node):
                         return self.call_function(m, [base], {})
                     return BoundMethod(base, attr)
+                for k in self.repo.mro(base.cls):
+                    for st in k.node.body:
+                        if isinstance(st, ast.Assign) and any(isinstance(t, ast.Name) and t.id == attr for t in st.targets):
+                            return self.eval(st.value, Frame(None, k.module))
             raise Unsupported(f"attribute {base.label}.{attr} is not modelled")
         if isinstance(base, ModRef):
             dotted = f"{base.dotted}.{attr}"
@@ -922,6 +932,8 @@ class Interp:
             return self.call_ext(f.dotted, args, kwargs, node)
         if isinstance(f, PyFunc):
             return f.fn(*args, **kwargs)
+        if isinstance(f, Obj) and f.cls is not None and self.repo.method(f.cls, "__call__") is not None:
+            return self.call_method(f, "__call__", args, kwargs, node)
         raise Unsupported(f"call of {f!r}" + (f" in {ast.unparse(node)}" if node else ""))
 
     def construct(self, c: ClassInfo, args, kwargs):
